@@ -476,8 +476,8 @@ def r05_5_c17(prog, out):
 
 @rule("C03", "R05.5", "every ack id handed to the batch parser has its own seconds value (zip cannot truncate)", floor=2)
 def r05_5_c03(prog, out):
-    # for the exclusive lease only the forms that make the server release or re-pair leases matter (a made-up 0 = nack, ids paired
-    # with another id's seconds); a silently ignored tail of ack ids leaves every lease as it was
+    # an extension that is answered OK and silently not applied (truncated tail) ends the lease earlier than the holder was told;
+    # a made-up 0 = nack releases it outright
     r05_5(prog, out, "C03")
 
 
@@ -663,9 +663,6 @@ def r05_5(prog, out, prop="C05"):
                 out.holds(key, bi.loc(bb), "a length comparison of the two lists rejects a mismatch before parsing")
             elif cycles and fixed:
                 out.holds(key, bi.loc(bb), "a literal list of %d value(s) is repeated over the ack ids by the parser" % fixed)
-            elif (cycles or (zips and not invents)) and prop == "C03":
-                out.undecided(key, bi.loc(bb), "lists of different length are not rejected here; a truncated / repeated pairing changes which deadlines are set, not who "
-                              "holds a lease (judged under C05 / C17)")
             elif cycles:
                 out.violation(key, bi.loc(bb), "the batch parser repeats a shorter seconds list over the ack ids (cycle) and nothing rejects lists of different length "
                               "before it is called: an inconsistent request is accepted and applied (and an empty seconds list silently drops every ack id)")
